@@ -191,6 +191,7 @@ class SeqFacts:
 
     def __init__(self, rounds=3):
         self.seen = {}
+        self.own_quants = {}
         self.rounds = rounds
 
     def feed(self, formulas):
@@ -211,6 +212,8 @@ class SeqFacts:
                     stack.extend(t.children())
                 elif z3.is_quantifier(t):
                     # facts about terms that mention the bound variables are emitted under the same binder
+                    if k in self.own_quants:
+                        continue
                     n = t.num_vars()
                     cs = [z3.Const(f"{t.var_name(i)}!q{k}", t.var_sort(i)) for i in range(n)]
                     body = z3.substitute_vars(t.body(), *reversed(cs))
@@ -227,7 +230,9 @@ class SeqFacts:
                     for u in sub:
                         for f in self._inst(u):
                             if any(_mentions(f, c) for c in cs):
-                                qnew.append(z3.ForAll(cs, f))
+                                qf = z3.ForAll(cs, f)
+                                self.own_quants[qf.get_id()] = qf
+                                qnew.append(qf)
                             elif u.get_id() not in self.seen:
                                 qnew.append(f)
             new = list(qnew)
@@ -341,6 +346,7 @@ class AbsSolver:
         self.ab = Abstraction()
         self.facts = SeqFacts()
         self.s = z3.Solver()
+        self.timeout_ms = timeout_ms
         self.s.set("timeout", timeout_ms)
         try:
             self.s.set("smt.mbqi", False)     # quantified facts: E-matching only (a 'sat' is never used anyway)
@@ -389,8 +395,17 @@ class AbsSolver:
             self._fact(f)
         self._flush_lits()
 
-    def check_with(self, z):
+    def check_with(self, z, timeout_ms=None):
         """check-sat of the current assertions plus z (not retained)."""
+        if timeout_ms is not None:
+            self.s.set("timeout", timeout_ms)
+        try:
+            return self._check_with(z)
+        finally:
+            if timeout_ms is not None:
+                self.s.set("timeout", self.timeout_ms)
+
+    def _check_with(self, z):
         a = self.ab.tr(z)
         extra = self.facts.feed([a])
         # facts are valid sequence-theory instances: keep them permanently
